@@ -150,7 +150,7 @@ def run(ctx):
             fits.append((n, 'exact-monotone', vt, 1, ctx.seed * 104729 + 5000 + i))
     # tables of 1100 rows in which two pairs of columns differ in their Kendall tau by one pair of rows: the heavier one belongs to the first regular tree
     for i, n in enumerate((3, 4) if quick else (3, 3, 4, 4, 5)):
-        fits.append((n, 'near-tie', 'regular', 1 + i % 2, ctx.seed * 104729 + 7000 + i))
+        fits.append((n, 'near-tie', 'regular', 1, ctx.seed * 104729 + 7000 + i))       # first trees only: two of the columns are nearly the same
     with Pool(16) as pool:
         log = pool.map(_drive, jobs, chunksize=8) + pool.map(_fit, fits, chunksize=4)
     wd = T.workdir()
